@@ -12,6 +12,7 @@
 import MpirProofs.Lemmas.FftRingBfly
 import MpirProofs.Lemmas.FftRingCombine
 import MpirProofs.Lemmas.FftRingMulmod
+import MpirProofs.Lemmas.FftRingSqrt2
 namespace Mpir.Fft
 open Mpir
 
@@ -238,5 +239,92 @@ example : rval (mulmod_Bexpp1 [0, 0, 1] [5, 0, 0]).1 = (B : Int) ^ 2 + 1 - 5 := 
 example : mulmod_Bexpp1 [0, 0, 1] [0, 0, 1] = ([1, 0, 0], 0) := by decide
 example : (rval (mulmod_Bexpp1 [B - 1, 7, 0] [3, B - 1, 0]).1 - rval [B - 1, 7, 0] * rval [3, B - 1, 0]) % pmod 2 = 0 := by
   decide
+
+/-! ### the √2 twiddles (truncated sqrt2 transforms)
+
+With wn = 64·n, √2 ≡ 2^(wn/4)·(2^(wn/2) − 1) modulo p.  `TopTiny`: signed top limb in [−2^59, 2^59);
+`Top61`: in [−2^61, 2^61). -/
+
+/-- the square root of two that the code uses really squares to 2 -/
+theorem sqrt2_sq (n : Nat) : ((2 : Int) ^ (16 * n) * (2 ^ (32 * n) - 1)) ^ 2 ≡ 2 [ZMOD pmod n] := by
+  rw [modEq_pmod_iff]; refine ⟨2 ^ (32 * n) - 2, ?_⟩
+  have e1 : ((2 : Int) ^ (16 * n)) ^ 2 = 2 ^ (32 * n) := by rw [← pow_mul]; congr 1; ring
+  have e2 : ((2 : Int) ^ (32 * n)) ^ 2 = (B : Int) ^ n := by rw [B_pow_two, ← pow_mul]; congr 1; ring
+  generalize (2 : Int) ^ (32 * n) = u at *
+  generalize (2 : Int) ^ (16 * n) = v at *
+  linear_combination (u - 1) ^ 2 * e1 + (u - 2) * e2
+
+/-- mpir_fft_adjust_sqrt2 (exponent below 2·wn as in the transforms, top limb below 2^61 in absolute value):
+    multiplication by 2^(i/2 + wn/4 + i·(w/2))·(2^(wn/2) − 1), i.e. by √2·2^(i/2 + i·(w/2)). -/
+theorem adjust_sqrt2_val (x : List Nat) (n i w : Nat) (hx : Limbs x) (hl : x.length = n + 1) (hn : 1 ≤ n)
+    (hb : i / 2 + n * 64 / 4 + i * (w / 2) < 2 * (n * 64)) (ht : Top61 x) :
+    (adjust_sqrt2 x i w).length = n + 1 ∧ Limbs (adjust_sqrt2 x i w) ∧
+    rval (adjust_sqrt2 x i w) ≡ rval x * (2 ^ (i / 2 + n * 64 / 4 + i * (w / 2)) * (2 ^ (32 * n) - 1)) [ZMOD pmod n] := by
+  obtain ⟨xs, t, rfl, hxs⟩ := as_snoc x n hl
+  obtain ⟨ys, g, e, l, L, r⟩ := adjust_sqrt2_spec xs t i w hx (by rw [hxs]; exact hb) (by omega) ht
+  rw [e, hxs] at *
+  exact ⟨by simp [l], L, r⟩
+
+-- non-vacuity: n = 1 (half-limb shifts, no limb rotation) and n = 3 (odd size: rotation plus half limb)
+example : (rval (adjust_sqrt2 [5, 0] 3 1) - 5 * (2 ^ (1 + 16 + 0) * (2 ^ 32 - 1))) % pmod 1 = 0 := by decide
+example : (rval (adjust_sqrt2 [5, 7, 9, 1] 37 2) - rval [5, 7, 9, 1] * (2 ^ (18 + 48 + 37) * (2 ^ 96 - 1))) % pmod 3 = 0 := by
+  decide
+
+/-- mpir_fft_butterfly_sqrt2 (both top limbs below 2^59 in absolute value):
+    (s, t) = (a + b, (a − b)·√2·2^(i/2 + i·(w/2))). -/
+theorem butterfly_sqrt2_val (a b : List Nat) (n i w : Nat) (ha : Limbs a) (hb : Limbs b)
+    (hla : a.length = n + 1) (hlb : b.length = n + 1) (hn : 1 ≤ n)
+    (hbd : i / 2 + n * 64 / 4 + i * (w / 2) < 2 * (n * 64)) (ta : TopTiny a) (tb : TopTiny b) :
+    (fft_butterfly_sqrt2 a b i w).1.length = n + 1 ∧ (fft_butterfly_sqrt2 a b i w).2.length = n + 1 ∧
+    Limbs (fft_butterfly_sqrt2 a b i w).1 ∧ Limbs (fft_butterfly_sqrt2 a b i w).2 ∧
+    rval (fft_butterfly_sqrt2 a b i w).1 ≡ rval a + rval b [ZMOD pmod n] ∧
+    rval (fft_butterfly_sqrt2 a b i w).2 ≡
+      (rval a - rval b) * (2 ^ (i / 2 + n * 64 / 4 + i * (w / 2)) * (2 ^ (32 * n) - 1)) [ZMOD pmod n] := by
+  obtain ⟨A, h1, rfl, hA⟩ := as_snoc a n hla
+  obtain ⟨C, h2, rfl, hC⟩ := as_snoc b n hlb
+  obtain ⟨ss, sg, ts, tg, e, l1, l2, L1, L2, r1, r2⟩ :=
+    fft_butterfly_sqrt2_spec A C h1 h2 i w ha hb (by omega) (by omega) (by rw [hA]; exact hbd) ta tb
+  rw [e, hA] at *
+  exact ⟨by simp [l1], by simp [l2], L1, L2, r1, r2⟩
+
+example : (rval (fft_butterfly_sqrt2 [5, 7, 1] [9, 2, B - 1] 5 3).2 -
+    (rval [5, 7, 1] - rval [9, 2, B - 1]) * (2 ^ (2 + 32 + 5) * (2 ^ 64 - 1))) % pmod 2 = 0 := by decide
+
+/-- mpir_ifft_butterfly_sqrt2 (i/2 + i·(w/2) + 1 ≤ wn): (s, t) = (a − b·ω, a + b·ω) with
+    ω = 2^(wn − i/2 − i·(w/2) − 1 + wn/4)·(2^(wn/2) − 1). -/
+theorem ifft_butterfly_sqrt2_val (a b : List Nat) (n i w : Nat) (ha : Limbs a) (hb : Limbs b)
+    (hla : a.length = n + 1) (hlb : b.length = n + 1) (hn : 1 ≤ n)
+    (hbd : i / 2 + i * (w / 2) + 1 ≤ n * 64) (ta : TopTiny a) (tb : TopTiny b) :
+    (ifft_butterfly_sqrt2 a b i w).1.length = n + 1 ∧ (ifft_butterfly_sqrt2 a b i w).2.1.length = n + 1 ∧
+    Limbs (ifft_butterfly_sqrt2 a b i w).1 ∧ Limbs (ifft_butterfly_sqrt2 a b i w).2.1 ∧
+    rval (ifft_butterfly_sqrt2 a b i w).1 ≡ rval a - rval b *
+      (2 ^ (n * 64 - i / 2 - i * (w / 2) - 1 + n * 64 / 4) * (2 ^ (32 * n) - 1)) [ZMOD pmod n] ∧
+    rval (ifft_butterfly_sqrt2 a b i w).2.1 ≡ rval a + rval b *
+      (2 ^ (n * 64 - i / 2 - i * (w / 2) - 1 + n * 64 / 4) * (2 ^ (32 * n) - 1)) [ZMOD pmod n] := by
+  obtain ⟨A, h1, rfl, hA⟩ := as_snoc a n hla
+  obtain ⟨C, h2, rfl, hC⟩ := as_snoc b n hlb
+  obtain ⟨ss, sg, ts, tg, i2', e, l1, l2, L1, L2, r1, r2⟩ :=
+    ifft_butterfly_sqrt2_spec A C h1 h2 i w ha hb (by omega) (by omega) (by rw [hA]; exact hbd) ta tb
+  rw [e, hA] at *
+  exact ⟨by simp [l1], by simp [l2], L1, L2, r1, r2⟩
+
+/-- the forward and inverse √2 twiddles are inverse to each other (e = i/2 + i·(w/2)):
+    2^(e + wn/4)·(2^(wn/2) − 1) · (−2^(wn − e − 1 + wn/4)·(2^(wn/2) − 1)) ≡ 1 -/
+theorem sqrt2_twiddle_inverse (n e : Nat) (he : e + 1 ≤ 64 * n) :
+    ((2 : Int) ^ (e + 16 * n) * (2 ^ (32 * n) - 1)) * (-(2 ^ (64 * n - e - 1 + 16 * n) * (2 ^ (32 * n) - 1))) ≡ 1
+      [ZMOD pmod n] := by
+  have hn : 1 ≤ n := by omega
+  have hab : (2 : Int) ^ (e + 16 * n) * 2 ^ (64 * n - e - 1 + 16 * n) = (B : Int) ^ n * 2 ^ (32 * n - 1) := by
+    rw [B_pow_two, ← pow_add, ← pow_add]; congr 1; omega
+  have hu2 : ((2 : Int) ^ (32 * n)) ^ 2 = (B : Int) ^ n := by rw [B_pow_two, ← pow_mul]; congr 1; ring
+  have hu : (2 : Int) ^ (32 * n) = 2 * 2 ^ (32 * n - 1) := by rw [← pow_succ']; congr 1; omega
+  rw [modEq_pmod_iff]
+  refine ⟨-((B : Int) ^ n * 2 ^ (32 * n - 1)) + (B : Int) ^ n - 1, ?_⟩
+  generalize (2 : Int) ^ (32 * n) = u at *
+  generalize (2 : Int) ^ (32 * n - 1) = h at *
+  generalize (2 : Int) ^ (e + 16 * n) = a at *
+  generalize (2 : Int) ^ (64 * n - e - 1 + 16 * n) = b at *
+  generalize (B : Int) ^ n = P at *
+  linear_combination (-(u - 1) ^ 2) * hab + (-(P * h) + P) * hu2 + (-(P * u)) * hu
 
 end Mpir.Fft
